@@ -83,6 +83,27 @@ pub fn gen_text(r: &mut Rng, u: &Universe) -> String {
     s
 }
 
+/// identifier alphabets of C08/C17: no whitespace, parentheses or colon; non-empty
+fn is_ident(s: &str) -> bool {
+    !s.is_empty() && !s.chars().any(|c| c.is_whitespace() || c == '(' || c == ')' || c == ':')
+}
+fn canon_class(r: &mut Rng, u: &Universe) -> String {
+    let c = class_name(r, u);
+    if is_ident(&c) {
+        c
+    } else {
+        "x.Unknown".to_string()
+    }
+}
+fn canon_class_method(r: &mut Rng, u: &Universe) -> (String, String) {
+    let (c, m) = class_method(r, u);
+    if is_ident(&c) && is_ident(&m) {
+        (c, m)
+    } else {
+        ("x.Unknown".to_string(), "m".to_string())
+    }
+}
+
 fn ident(r: &mut Rng) -> String {
     r.pick(&["m", "<init>", "run", "é", "a$1", "lambda$x$0", "access$100"]).to_string()
 }
@@ -99,7 +120,7 @@ pub fn gen_canonical_trace(r: &mut Rng, u: &Universe) -> String {
             s.push_str("Caused by: ");
         }
         if has_exc {
-            s.push_str(&class_name(r, u));
+            s.push_str(&canon_class(r, u));
             if r.chance(1, 2) {
                 s.push_str(": ");
                 s.push_str(*r.pick(&["boom", "Crash: again", "Caused by: inner", "at x.y(z:1)", "a: b", "é"]));
@@ -107,7 +128,7 @@ pub fn gen_canonical_trace(r: &mut Rng, u: &Universe) -> String {
             s.push('\n');
         }
         for _ in 0..nframes {
-            let (c, m) = if r.chance(1, 4) { (class_name(r, u), ident(r)) } else { class_method(r, u) };
+            let (c, m) = if r.chance(1, 4) { (canon_class(r, u), ident(r)) } else { canon_class_method(r, u) };
             let m = m.replace('.', "_");
             let line = match r.below(8) {
                 0 => "0".to_string(),
